@@ -454,6 +454,20 @@ def env_and_semantic(st):
         judge_scalar(hs, '{k:`x%s`}' % e, '3.0', st, 'escape:uri-in-dict')
         text = 'ver:"2.0" u:`%s`\na\n`a%sb`\n' % (e, e)
         judge_document(hs, text, st, 'escape:uri', {'kind': 'doc', 'text': text})
+    # long runs of one token in an unterminated or unbalanced place: parsing terminates (quadratic or exponential matching shows here)
+    runs = ['\\\\', '\\"', '\\', '"', '`', '(', '[', '{', '<<', 'a', ' ', ',', ':', '\\u00', '$', 'N,']
+    for t in runs:
+        for n in (40, 400):
+            texts = ['ver:"' + t * n, 'ver:"2.0" m:"' + t * n + '\na\n1\n', 'ver:"3.0"\na\n"' + t * n, 'ver:"2.0"\na\n`' + t * n]
+            if t not in ('[', '{', '<<', '('):
+                texts.append('ver:"3.0"\na\n' + t * n + '\n')
+            for text in texts:
+                case = {'kind': 'doc', 'text': text}
+                out = judge_document(hs, text, st, 'token-run', case)
+                st.case(('token-run', t, n, text[:12]), outcome=('token-run', out))
+            judge_scalar(hs, '"' + t * n, '3.0', st, 'token-run')
+            if t not in ('[', '{', '<<', '('):           # hundreds of OPEN brackets are nesting beyond the stated depth (RecursionError there)
+                judge_scalar(hs, t * n, '3.0', st, 'token-run')
     # 3.0-only constructs inside a nested grid whose OWN header declares a pre-3.0 version (the enclosing document is 3.0)
     for nver in ('2.0', '1.0', '2.0.0'):
         for kind, lit in (('list', '[1]'), ('dict', '{k:1}'), ('na', 'NA'), ('xstr', 'hex("ff")'), ('grid', '<<ver:"3.0"\nq\n1\n>>')):
